@@ -470,6 +470,155 @@ fn churn(ctx: &mut Ctx) {
     }
 }
 
+
+/// a peer leaves in an orderly way and rejoins under the same announced identity, at every
+/// timing relative to the socket noticing the departure; the new connection must work in both
+/// directions and the old one must be released
+fn rejoin_same_identity(ctx: &mut Ctx) {
+    let kind = [Kind::Router, Kind::Dealer, Kind::Rep, Kind::Pull, Kind::Xpub, Kind::Sub][(ctx.idx % 6) as usize];
+    let timing = (ctx.idx / 6) % 4; // when the second connection is opened
+    world::swarm(ctx, SwarmOpts::default());
+    let out: Rc<RefCell<(bool, Vec<(&'static str, String)>, Vec<Arc<rt::net::Conn>>)>> = Rc::new(RefCell::new((false, vec![], vec![])));
+    let o2 = out.clone();
+    let peer_type = kind.peers()[0];
+    rt::task::spawn_local("app", async move {
+        let mut sock = AnySock::new(kind, None);
+        let ep = sock.bind("tcp://127.0.0.1:0").await.expect("bind").to_string();
+        let dummy = Rc::new(RefCell::new(Out::default()));
+        dummy.borrow_mut().bystander_got = vec![0; 4];
+        let msg = |n: u32| -> Vec<Vec<u8>> {
+            let mut m = if kind == Kind::Rep { vec![vec![]] } else { vec![] };
+            m.extend(tagged(1, n, &[3]));
+            m
+        };
+        let mut p1 = RawPeer::connect(&ep).expect("connect");
+        o2.borrow_mut().2.push(p1.conn.clone());
+        let _ = p1.hello(peer_type, Some(b"same-id")).await;
+        let _ = p1.send_msg(&msg(0)).await;
+        drain(&mut sock, kind, &dummy, false).await;
+        // timing 0: the second connection exists before the first one closes
+        let mut p2 = None;
+        if timing == 0 {
+            let mut p = RawPeer::connect(&ep).expect("connect");
+            let _ = p.hello(peer_type, Some(b"same-id")).await;
+            rt::task::idle().await;
+            p2 = Some(p);
+        }
+        p1.close();
+        // timing 1: right after the close, before the socket has been polled
+        if timing == 1 {
+            let mut p = RawPeer::connect(&ep).expect("connect");
+            let _ = p.hello(peer_type, Some(b"same-id")).await;
+            p2 = Some(p);
+        }
+        // the socket consumes the end of the first connection inside a recv
+        drain(&mut sock, kind, &dummy, false).await;
+        // timing 2: after the end was consumed, before the next recv call releases it
+        if timing == 2 {
+            let mut p = RawPeer::connect(&ep).expect("connect");
+            let _ = p.hello(peer_type, Some(b"same-id")).await;
+            rt::task::idle().await;
+            p2 = Some(p);
+        }
+        drain(&mut sock, kind, &dummy, false).await;
+        // timing 3: after everything has settled
+        if timing == 3 {
+            let mut p = RawPeer::connect(&ep).expect("connect");
+            let _ = p.hello(peer_type, Some(b"same-id")).await;
+            rt::task::idle().await;
+            p2 = Some(p);
+        }
+        let mut p2 = p2.unwrap();
+        o2.borrow_mut().2.push(p2.conn.clone());
+        if matches!(kind, Kind::Xpub) {
+            let _ = p2.send_msg(&[vec![1]]).await;
+            p2.conn.set_io(1, |io| io.wyield_pm = 0);
+            p2.conn.set_cap(1, 1 << 40);
+        }
+        rt::task::idle().await;
+        // inbound on the new connection
+        let _ = p2.send_msg(&msg(7)).await;
+        let mut got = false;
+        for _ in 0..20 {
+            match rt::future::or_idle(sock.recv()).await {
+                Some(Ok(m)) => {
+                    let f = from_zmq(&m);
+                    if tag_of(&f) == Some((1, 7)) {
+                        got = true;
+                        if kind == Kind::Rep {
+                            let _ = sock.send(to_zmq(&[b"r".to_vec()])).await;
+                        }
+                        break;
+                    }
+                    if kind == Kind::Rep {
+                        let _ = sock.send(to_zmq(&[b"r".to_vec()])).await;
+                    }
+                }
+                Some(Err(_)) => rt::task::yield_now().await,
+                None => break,
+            }
+        }
+        if !got {
+            o2.borrow_mut().1.push(("rejoined_peer_not_heard", format!("{} (rejoin timing {timing}): a message on the new connection of the rejoined peer was not delivered", kind.name())));
+        }
+        // outbound to the new connection
+        if kind.has_send() {
+            let before = p2.inbound().messages().len();
+            let ok = match kind {
+                Kind::Router => sock.send(to_zmq(&[b"same-id".to_vec(), b"hello".to_vec()])).await.is_ok(),
+                Kind::Rep => got, // the reply above
+                _ => {
+                    let mut any = false;
+                    for _ in 0..3 {
+                        any |= sock.send(to_zmq(&[b"hello".to_vec()])).await.is_ok();
+                    }
+                    any
+                }
+            };
+            rt::task::idle().await;
+            if !ok || p2.inbound().messages().len() == before && kind != Kind::Rep {
+                o2.borrow_mut().1.push(("rejoined_peer_not_reachable", format!("{} (rejoin timing {timing}): nothing could be sent to the rejoined peer (send ok: {ok}, messages on its connection before/after: {before}/{})", kind.name(), p2.inbound().messages().len())));
+            }
+            if kind == Kind::Rep && p2.inbound().messages().is_empty() {
+                o2.borrow_mut().1.push(("rejoined_peer_not_reachable", format!("REP (rejoin timing {timing}): the reply did not reach the rejoined peer's connection")));
+            }
+        }
+        drain(&mut sock, kind, &dummy, false).await;
+        o2.borrow_mut().0 = true;
+        world::park().await;
+        drop(sock);
+        drop(p2);
+    });
+    let end = ctx.sim.run(600_000);
+    if end == rt::RunEnd::Budget {
+        ctx.violation("no_quiescence", format!("{} rejoin: no quiescence", kind.name()));
+    }
+    ctx.check_panics();
+    let o = out.borrow();
+    for (c, d) in o.1.clone() {
+        ctx.violation(&format!("{c}:{}", kind.name()), d);
+    }
+    if o.0 {
+        if let Some(c) = o.2.first() {
+            if !c.released(1) {
+                ctx.violation(&format!("old_connection_not_released:{}", kind.name()), format!("{} (rejoin timing {timing}): the connection the peer closed is still held by the socket at quiescence", kind.name()));
+            }
+        }
+        if let Some(c) = o.2.get(1) {
+            if c.released(1) {
+                ctx.violation(&format!("new_connection_dropped:{}", kind.name()), format!("{} (rejoin timing {timing}): the socket closed the rejoined peer's live connection", kind.name()));
+            }
+        }
+        ctx.nontrivial();
+    } else if end == rt::RunEnd::Quiescent && ctx.sim.rt.panics.borrow().is_empty() && o.1.is_empty() {
+        ctx.violation("hang", format!("{} rejoin: the application never finished", kind.name()));
+    }
+    ctx.out.extra_shape = ctx.idx % 24;
+    if ctx.want_sample {
+        ctx.out.sample = Some(format!("{}: peer 'same-id' sends, closes and rejoins under the same identity (timing {timing})", kind.name()));
+    }
+}
+
 pub fn def() -> PropDef {
     let space: u64 = 36 * (stream_len(Kind::Pull) as u64 + 4);
     PropDef {
@@ -480,6 +629,7 @@ pub fn def() -> PropDef {
         strata: vec![
             Stratum { name: "cut_world", quick: space + 20_000, thorough: space * 40, exhaustive: (false, false), run: cut_world, what: "victim cut at every offset x fault kind x socket type, bystanders alive" },
             Stratum { name: "cut_world_connect", quick: space / 2 + 5_000, thorough: space * 10, exhaustive: (false, false), run: cut_world_connect, what: "the same grid with the victim at the far end of a connection opened by connect()" },
+            Stratum { name: "rejoin_same_identity", quick: 12_000, thorough: 400_000, exhaustive: (false, false), run: rejoin_same_identity, what: "orderly departure and rejoin under the same announced identity at four timings" },
             Stratum { name: "churn", quick: 9_000, thorough: 300_000, exhaustive: (false, false), run: churn, what: "repeated connect/disconnect cycles, retained connections" },
         ],
     }
